@@ -726,6 +726,7 @@ class TorControlProtocol(LineOnlyReceiver):
         self.on_disconnect = None
 
         outstanding = [self.command] + self.commands if self.command else self.commands
+        self.commands = []
         self.command = None
         self.defer = None
         for d, cmd, cmd_arg in outstanding:
